@@ -1123,6 +1123,8 @@ def _jit_case(ctx, model, variant, jit_opt, ops):
     kw = {} if jit_opt is None else {"jit": jit_opt}
     if variant == "adjFn":
         A = linop.LinearOperator(input_shape=(4,), output_shape=(3,), eval_fn=lambda x: Mj @ x, adj_fn=adj_fn, input_dtype=np.float64, **kw)
+    elif variant == "ownAdj":
+        A = linop.MatrixOperator(Mj)  # defines adj / gram / gram_op itself; jit() is the inherited one
     elif variant == "classAdj":
         A = ClassAdj(input_shape=(4,), output_shape=(3,), input_dtype=np.float64, output_dtype=np.float64, **kw)
     else:
@@ -1158,7 +1160,7 @@ def _jit_case(ctx, model, variant, jit_opt, ops):
         else:
             A.gram_op  # noqa: B018
         states.append(state())
-    m = model.call("jit", variant=variant, jit=bool(jit_opt), ops=ops)
+    m = model.call("jit", variant="plain" if variant == "ownAdj" else variant, jit=bool(jit_opt), ops=ops, own=(variant == "ownAdj"))
     case = {"kind": "jit", "variant": variant, "jit": jit_opt, "ops": ops}
     ctx.case(case, ("jit", variant, jit_opt, tuple(ops)), sample_every=41)
     ctx.count(f"jit:{variant}")
@@ -1181,6 +1183,9 @@ def _corr_jit(ctx, model):
                 seqs = seqs + [[names[int(i)] for i in ctx.rng.integers(0, 5, size=int(ctx.rng.integers(1, 7)))]]
             for ops in seqs:
                 _jit_case(ctx, model, variant, jit_opt, ops)
+    for ops in [[], ["adj", "gram", "gramOp", "call"], ["adj", "jit", "gram", "jit", "call"], ["gramOp", "jit", "adj"]] + \
+            [[names[int(i)] for i in ctx.rng.integers(0, 5, size=int(ctx.rng.integers(1, 7)))] for _ in range(ctx.n(2, 8))]:
+        _jit_case(ctx, model, "ownAdj", None, ops)
 
 
 # ==============================================================================================
@@ -1668,8 +1673,8 @@ def _corr_exhaustive(ctx, model):
         # jit slots: every op sequence up to length 3, all variants and option values
         n_jit = 0
         names = ["jit", "call", "adj", "gram", "gramOp"]
-        for variant in ("adjFn", "classAdj", "plain"):
-            for jit_opt in (None, True):
+        for variant in ("adjFn", "classAdj", "plain", "ownAdj"):
+            for jit_opt in ((None, True) if variant != "ownAdj" else (None,)):
                 for ln in range(1, 4):
                     for ops in itertools.product(names, repeat=ln):
                         _jit_case(ctx, model, variant, jit_opt, list(ops))
